@@ -74,6 +74,11 @@ func newSharedEnv(exprs []*lisp.LVal) (*lisp.LEnv, error) {
 		return nil, fmt.Errorf("%v", rc)
 	}
 	env.AddBuiltins(true, sharedHostTable...)
+	// a macro the shared Program CALLS but does not define (defined once per runtime, outside the Program): its expansion
+	// reads a global at expansion time, so what a load of the Program does depends on the runtime's state at that load
+	if rc := env.LoadString("prelude", "(defmacro mode-now () (if (ignore-errors expansion-flag) 1 0))"); rc.Type == lisp.LError {
+		return nil, fmt.Errorf("%v", rc)
+	}
 	return env, nil
 }
 
